@@ -11,6 +11,16 @@ ID = "C13"
 PROPS_FILE = "Props/C13.v"
 COQ_IMPORTS = "From SA Require Import Model.BootHarness."
 GEN_AVAILABLE = set()
+
+
+def _ties():
+    from harness.translate import bootci_tr
+    return [{"name": "utils.bootstrap_ci: nominal levels, bc / bca arguments, acceleration numerator and denominator "
+                     "(array plumbing and error branches pinned)",
+             "translate": bootci_tr.translate_bootstrap_ci, "gen_file": "Gen_bootci.v", "tie_file": "Tie_bootci.v"}]
+
+
+TIES = _ties()
 RULE = ("structured replicate arrays of shape (N,)+Y, N in 1..40, Y in {(), (k,), (j,k)}; columns constant / discrete / "
         "skewed / outlier-laden / dyadic / arbitrary doubles, NaNs sprinkled (rarely a whole component); estimate "
         "inside the range, equal to a replicate (ties in <=), at min/max, below, above; alpha scalar (dyadic and "
